@@ -35,7 +35,7 @@ class C01:
         return N.net_strategy(self.DLL, allow_zero_latency=True)
 
     def examples(self, tier):
-        return 1600 if tier == "quick" else 40000
+        return 1600 if tier == "quick" else 120000
 
     def enumerate(self, tier):
         return []
